@@ -676,7 +676,15 @@ def analyse(ck, prog=None):
     null_items = [it for it in after if it[2] is not None and any(P.call_name(unstamp(l)) and P.call_name(unstamp(l)).endswith("gadgets::sort_digests4") for l in circ.loops_of(it[2]))]
     okn = len(null_items) == 1 and null_items[0][0] == "all"
     SN = None
-    if okn:
+    # the same region written without a loop: `output.extend(sort_digests4(..).iter().flatten().copied())` — every digest's four limbs
+    # in order, digest after digest
+    flat = [it for it in after if it[0] == "all" and it[2] is not None and not circ.loops_of(it[2]) and isinstance(P.norm(it[1]), tuple) and P.norm(it[1])[0] == "flatten"
+            and (P.call_name(unstamp(P.norm(it[1])[1])) or "").endswith("gadgets::sort_digests4")]
+    if not null_items and len(flat) == 1:
+        null_items = flat
+        okn = not circ.uncond_problems(flat[0][2])
+        SN = P.norm(unstamp(P.norm(flat[0][1])[1])[4][1])
+    elif okn:
         e = null_items[0][2]
         lp3 = circ.loops_of(e)[0]
         okn = P.norm(null_items[0][1]) == ("elem", lp3) and len(circ.loops_of(e)) == 1
